@@ -603,9 +603,20 @@ func (c07) multiConn(sc core.Scenario, r *core.R) {
 		}
 		for k := 0; k < 2; k++ {
 			t := Tok(fmt.Sprintf("m%d", c%10))
-			ch, err := cl.Sub(bg, t, ln, svc.SGoroutine)
-			if err != nil {
-				r.Violate("subscribe-failed", "connection %d: %v", c, err)
+			var ch <-chan svc.Item
+			so := Go(t, func() (string, error) {
+				var err error
+				ch, err = cl.Sub(bg, t, ln, svc.SGoroutine)
+				return "", err
+			})
+			if !so.Wait(core.Grace) {
+				atomic.StoreInt32(&stop, 1)
+				r.Violate("stream-not-closed", "connection %d of %d: a subscribing call never returned while streams of other connections were being forwarded", c, nc)
+				return
+			}
+			if so.Err != nil {
+				atomic.StoreInt32(&stop, 1)
+				r.Violate("subscribe-failed", "connection %d: %v", c, so.Err)
 				return
 			}
 			mu.Lock()
@@ -617,17 +628,27 @@ func (c07) multiConn(sc core.Scenario, r *core.R) {
 			defer wg.Done()
 			for atomic.LoadInt32(&stop) == 0 {
 				t := Tok("e")
-				v, err := cl.Echo(bg, t, "pad-pad-pad-pad-pad-pad-pad-pad")
+				eo := Go(t, func() (string, error) { return cl.Echo(bg, t, "pad-pad-pad-pad-pad-pad-pad-pad") })
 				atomic.AddInt64(&echoes, 1)
-				if err != nil || v != svc.Reply(t) {
+				if !eo.Wait(core.Grace) {
+					atomic.AddInt64(&echoBad, 1)
+					return
+				}
+				if eo.Err != nil || eo.Val != svc.Reply(t) {
 					atomic.AddInt64(&echoBad, 1)
 				}
 			}
 		}(cl)
 	}
+	stalled := 0
 	for i, s := range all {
 		s := s
-		if !core.WaitProgress(s.g.done, core.Grace, func() int64 { return int64(s.g.n()) }) {
+		wait := core.Grace
+		if stalled >= 2 {
+			wait = 300 * time.Millisecond // the verdict is established; do not spend the grace on every further stream
+		}
+		if !core.WaitProgress(s.g.done, wait, func() int64 { return int64(s.g.n()) }) {
+			stalled++
 			r.Violate("stream-not-closed", "stream %d (%s) of %d on %d connections stalled after %d of %d values", i, s.tok, len(all), nc, s.g.n(), ln)
 			continue
 		}
@@ -636,7 +657,11 @@ func (c07) multiConn(sc core.Scenario, r *core.R) {
 	atomic.StoreInt32(&stop, 1)
 	done := make(chan struct{})
 	go func() { wg.Wait(); close(done) }()
-	core.WaitCh(done, core.Grace)
+	if stalled == 0 {
+		core.WaitCh(done, core.Grace)
+	} else {
+		core.WaitCh(done, 300*time.Millisecond)
+	}
 	if b := atomic.LoadInt64(&echoBad); b > 0 {
 		r.Violate("unary-disturbed", "%d of %d unary calls made next to the streams failed or returned a foreign value", b, atomic.LoadInt64(&echoes))
 	}
